@@ -31,7 +31,7 @@ def cases(draw):
     s = draw(dataset_specs(interpolators=INTERPOLATORS, dt_range=(0.5, 500.0), max_nt=8, max_nq=3, max_na=2))
     s["explicit_dt_sample"] = draw(st.booleans())
     s["explicit_dp_sample"] = draw(st.booleans())
-    s["bm_order"] = draw(st.integers(3, min(5, s["nv"] - 2)))
+    s["bm_order"] = draw(st.integers(3, max(3, min(5, s["nv"] - 2))))
     s["low_t"] = draw(st.booleans())
     if s["low_t"]:
         s["tmin"] = 0.0
